@@ -1155,6 +1155,12 @@ func ruleBufferBounded(p *Prog, r *Out) {
 		{"(*serverConn).discardFrame", "iferr==nil{err=sc.checkCarried(len(carry))}", "if err == nil { err = checkCarried(len(carry)) } before the error return"},
 	} {
 		fdn := p.decl(site.fn)
+		// the draining half of rejectBlock may live in rejectBlockFrom, which rejectBlock then only calls
+		if site.fn == "(*serverConn).rejectBlock" && fdn != nil && len(fdn.Body.List) == 1 {
+			if alt := p.decl("(*serverConn).rejectBlockFrom"); alt != nil {
+				fdn = alt
+			}
+		}
 		okSite := false
 		if fdn != nil {
 			ast.Inspect(fdn.Body, func(n ast.Node) bool {
